@@ -22,7 +22,9 @@ func (w *vpRespWriter) Write(b []byte) (int, error) {
 	w.events = append(w.events, "write "+string(b))
 	return len(b), nil
 }
-func (w *vpRespWriter) WriteHeader(code int) { w.events = append(w.events, fmt.Sprintf("status %d", code)) }
+func (w *vpRespWriter) WriteHeader(code int) {
+	w.events = append(w.events, fmt.Sprintf("status %d", code))
+}
 
 type vpDefaultHandler struct{ calls int }
 
